@@ -549,7 +549,11 @@ def intOfOctets (r : IntRepr) (os : Bytes) : Option Int :=
   match r with
   | .wide => some (Spec.twosVal os)
   | .long => let z := Spec.twosVal os; if -(2 ^ 63) ≤ z ∧ z < 2 ^ 63 then some z else none
-  | .ulong => let n := ofBE 0 os; if n < 2 ^ 64 then some (n : Int) else none
+  | .ulong =>
+    -- asn_INTEGER2ulong: a negative INTEGER (first octet ≥ 0x80) is a range error (finding F3 repaired)
+    match os with
+    | b :: _ => if b ≥ 128 then none else (let n := ofBE 0 os; if n < 2 ^ 64 then some (n : Int) else none)
+    | [] => some 0
 
 /-- INTEGER__xer_body_decode (+ the conversion of NativeInteger_decode_xer); `names` / `vals`: the
     enumeration map of ENUMERATED (empty for INTEGER) -/
